@@ -50,6 +50,17 @@ type c13Obs struct {
 	Delivered []int // global send index in order of the Route* calls at the receiver, -1 = unknown value
 	Lost      int
 	Log       []string
+	SendErr   []string
+}
+
+// safeSend: a panic inside the connection code is an observation, not a crash of the harness
+func safeSend(conn gen.Connection, m *msgSpec, v any) (err error) {
+	defer func() {
+		if r := recover(); r != nil {
+			err = fmt.Errorf("panic: %v", r)
+		}
+	}()
+	return sendOne(conn, m, v)
 }
 
 // closeNotify tells when the connection code itself closed the link (serve() returned).
@@ -213,6 +224,9 @@ func runC13Case(c c13Case) (o c13Obs) {
 	onLink := map[int]int{} // sends are attributed to links only after the run; count deliveries by waiting for quiescence
 	_ = onLink
 	for _, op := range c.Ops {
+		if p.poisoned {
+			break
+		}
 		switch op.Op {
 		case "send":
 			pr := &c.Pairs[op.Pair]
@@ -222,8 +236,11 @@ func runC13Case(c c13Case) (o c13Obs) {
 			sent = append(sent, v)
 			sentPair = append(sentPair, op.Pair)
 			o.PoolLens = append(o.PoolLens, poolLen)
-			if err := sendOne(p.connA, &m, v); err != nil {
-				o.Log = append(o.Log, fmt.Sprintf("send %d failed: %v", len(sent)-1, err))
+			if err := safeSend(p.connA, &m, v); err != nil {
+				o.SendErr = append(o.SendErr, fmt.Sprintf("send %d (%s from %d) failed: %v", len(sent)-1, pr.Kind, pr.From, err))
+				if strings.HasPrefix(err.Error(), "panic") {
+					p.poisoned = true
+				}
 			} else {
 				expect++
 			}
@@ -340,6 +357,7 @@ func monitorC13(c c13Case, o c13Obs) []string {
 			fails = append(fails, "a value arrived that was never sent")
 		}
 	}
+	fails = append(fails, o.SendErr...)
 	return fails
 }
 
@@ -398,6 +416,9 @@ func runC13(n int, outPath, replay string) {
 	}
 	resFrom, resTo := map[uint64]bool{}, map[uint64]bool{}
 	for _, c := range cases {
+		if len(c.Tags) == 0 {
+			c.Tags = []string{"constant-pool"}
+		}
 		o := runC13Case(c)
 		idx := out.Add(coqC13(c, o), c)
 		for _, f := range monitorC13(c, o) {
